@@ -186,6 +186,11 @@ def cases(rng, tier, shard, nshards):
             pts, meta = gen.curve(rng, nmax=250, nmin=80)
         else:
             pts, meta = gen.curve(rng, nmax=70)
+        if rng.random() < 0.04:
+            # probabilities / latencies in base units: y of magnitude 1e-9 (sums of squares far below machine epsilon)
+            pts = pts.copy()
+            pts[:, 1] = pts[:, 1] / max(float(np.max(np.abs(pts[:, 1]))), 1e-300) * float(10.0 ** -int(rng.integers(8, 11)))
+            meta = dict(meta, family=str(meta['family']) + '+tiny-y')
         lay = None
         if rng.random() < 0.04:
             # integral coordinates of magnitude 1e9..1e10 as int64 (products of two coordinate differences do not fit int64)
